@@ -3,9 +3,18 @@
 worktree into /verif/seeded/<PROP>-<i>/ with meta.json"""
 import json, os, shutil, sys, glob
 P, I, caught = sys.argv[1], sys.argv[2], sys.argv[3]
-needs = " ".join(sys.argv[4:])
+rest = sys.argv[4:]
+NEW = I
+if rest and rest[0].startswith("--as="):
+    NEW = rest[0][5:]
+    rest = rest[1:]
+EXPECT = "violation"
+if rest and rest[0].startswith("--expect="):
+    EXPECT = rest[0][9:]
+    rest = rest[1:]
+needs = " ".join(rest)
 src = "/tmp/wt/%s/OUT/%s" % (P, I)
-dst = "/verif/seeded/%s-%s" % (P, I)
+dst = "/verif/seeded/%s-%s" % (P, NEW)
 os.makedirs(dst, exist_ok=True)
 for f in glob.glob(src + "/*"):
     b = os.path.basename(f)
@@ -14,11 +23,11 @@ for f in glob.glob(src + "/*"):
     shutil.copy(f, os.path.join(dst, b))
 conf = open(os.path.join(src, "confirm.txt")).read().split() if os.path.exists(os.path.join(src, "confirm.txt")) else []
 meta = {
-    "id": "%s-%s" % (P, I), "property": P, "origin": "fresh sub-agent given only the property text and a scratch worktree",
+    "id": "%s-%s" % (P, NEW), "property": P, "detect": {"check": P, "expect": EXPECT}, "origin": "fresh sub-agent given only the property text and a scratch worktree",
     "needs_to_manifest": needs,
     "confirmed": {"cargo_check_workspace": "check rc=0" in " ".join(conf), "cargo_test_workspace": " ".join(conf),
                   "demonstration": "run with and without the patch in the scratch worktree; outputs differ (see demo_head.out / demo_patched.out or notes.md)"},
-    "ran": ["selftest/confirm_seed.sh %s %s" % (P, I), "selftest/demo_tex.sh / the Rust demo in notes.md", "selftest/try_seed.sh seeded/%s-%s/patch.diff %s" % (P, I, P)],
+    "ran": ["selftest/confirm_seed.sh %s %s" % (P, I), "selftest/demo_tex.sh / the Rust demo in notes.md", "selftest/try_seed.sh seeded/%s-%s/patch.diff %s" % (P, NEW, P)],
     "caught_by": caught,
 }
 json.dump(meta, open(os.path.join(dst, "meta.json"), "w"), indent=1)
